@@ -80,6 +80,25 @@ fn main() {
                 .unwrap();
             0
         }
+        Some("record-seed") if args.len() >= 6 => {
+            // run one seed while writing every draw to a file (used to minimise process-killing violations)
+            common::set_tier(&args[3]);
+            let prop = props::find(&args[1]).expect("property");
+            let batch = prop.batches.iter().find(|b| b.name == args[2]).expect("batch");
+            let seed: u64 = args[4].parse().unwrap();
+            let sc = batch.scenario;
+            let path = std::path::PathBuf::from(&args[5]);
+            std::thread::Builder::new()
+                .stack_size(16 << 20)
+                .spawn(move || {
+                    runner::install_panic_hook();
+                    let _ = runner::run_seed_recording(sc, seed, &path);
+                })
+                .unwrap()
+                .join()
+                .ok();
+            0
+        }
         Some("list") => {
             for p in props::all() {
                 println!("{} {} batches={}", p.id, p.level, p.batches.iter().map(|b| b.name).collect::<Vec<_>>().join(","));
